@@ -5,11 +5,11 @@
 //! milliseconds. Random arm / cancel / reset / drain / sleep schedules run against a reference
 //! model (id -> deadline bracket). Oracles, all on *returned values* (no scheduling verdicts):
 //!   * exactly once: a drained id must be pending (never cancelled, never delivered before);
-//!   * (evidence only, outside C16) deliveries more than two ticks before the deadline are counted;
+//!   * never early: no delivery more than one tick (rounding granularity) before the deadline;
 //!   * wake-up scheduled: whenever a timeout is pending (and the last drain ran to `None`, as the
 //!     worker's loop does), `next_poll_date()` is not later than the earliest pending deadline
-//!     plus one wheel revolution (lateness below one revolution is counted as evidence: it
-//!     happens on the unmodified tree when the hand runs ahead of the clock) - the worker only polls the timer when that date is due, so a
+//!     plus the tick granularity (`timer/wakeup_later_than_deadline_plus_granularity`; more than a
+//!     revolution later, or no date at all: `timer/pending_timeout_not_scheduled`) - the worker only polls the timer when that date is due, so a
 //!     later date (or none) means the session that owns the timeout is not reclaimed on time;
 //!   * finally everything still pending is delivered by a drain run after the last deadline.
 
@@ -55,7 +55,7 @@ fn schedule(cc: &CaseCtx, s: u64, rep: &mut Report) {
     let us = |i: Instant| i.saturating_duration_since(t0).as_micros() as u64;
     let mut drained_to_none = true;
     let mut violated = false;
-    let mut early_sampled = false;
+    let mut burst_left = 0usize;
     let n_ops = rng.urange(12, 40);
     let mut multi_rev_pending_at_drain = 0u64;
 
@@ -73,10 +73,10 @@ fn schedule(cc: &CaseCtx, s: u64, rep: &mut Report) {
         }};
     }
 
-    let arm = |timer: &mut Timer<u64>, rng: &mut Rng, id: u64| -> Pend {
-        // delays from below one tick to ~6 revolutions
+    let arm = |timer: &mut Timer<u64>, rng: &mut Rng, id: u64, short: bool| -> Pend {
+        // delays from below one tick to ~6 revolutions (a few ticks during a reset burst)
         let max_us = revolution.as_micros() as u64 * 6;
-        let delay_us = if rng.chance(1, 4) { rng.below(tick_ms * 1000 + 1) } else { rng.below(max_us) };
+        let delay_us = if short { rng.below(tick_ms * 3000) } else if rng.chance(1, 4) { rng.below(tick_ms * 1000 + 1) } else { rng.below(max_us) };
         let delay = Duration::from_micros(delay_us);
         let a = Instant::now();
         let handle = timer.set_timeout(delay, id);
@@ -95,12 +95,28 @@ fn schedule(cc: &CaseCtx, s: u64, rep: &mut Report) {
                 std::thread::sleep(wait);
             }
         }
-        let op = if last { 6 } else { rng.below(10) };
+        // a "reset burst" is what a busy worker does to its timeouts: re-arm, cancel, poll, again and
+        // again within a few ticks, without any pause
+        let op = if last {
+            6
+        } else if burst_left > 0 {
+            burst_left -= 1;
+            step -= 1;
+            *rng.pick(&[0u64, 4, 5, 5, 6, 6])
+        } else {
+            rng.below(11)
+        };
+        if op == 10 {
+            burst_left = rng.urange(8, 24);
+            rep.obs("timer_reset_bursts", 1);
+            log.push(json!({"op": "burst", "ops": burst_left}));
+            continue;
+        }
         match op {
             0..=3 => {
                 let id = next_id;
                 next_id += 1;
-                let p = arm(&mut timer, &mut rng, id);
+                let p = arm(&mut timer, &mut rng, id, burst_left > 0);
                 log.push(json!({"op": "arm", "id": id, "at": us(Instant::now()), "delay_us": p.delay_us}));
                 rep.obs("timer_timeouts_armed", 1);
                 if p.revolutions_ahead > 1.0 {
@@ -128,7 +144,7 @@ fn schedule(cc: &CaseCtx, s: u64, rep: &mut Report) {
                         }
                         let nid = next_id;
                         next_id += 1;
-                        let np = arm(&mut timer, &mut rng, nid);
+                        let np = arm(&mut timer, &mut rng, nid, burst_left > 0);
                         log.push(json!({"op": "rearm", "old": id, "id": nid, "at": us(Instant::now()), "delay_us": np.delay_us}));
                         rep.obs("timer_rearmed", 1);
                         pending.insert(nid, np);
@@ -163,18 +179,19 @@ fn schedule(cc: &CaseCtx, s: u64, rep: &mut Report) {
                         Some(p) => {
                             rep.obs("timer_delivered", 1);
                             gone.insert(id, "delivered");
-                            if after + tick * 2 < p.lo {
-                                // Not part of C16 (which bounds reclaim from above): recorded as
-                                // evidence. Seen on the unmodified tree when a slot's `next_tick`
-                                // goes stale behind the hand: `next_poll_date()` stays in the past,
-                                // every poll then moves the hand one tick ahead of the clock.
-                                rep.obs("timer_delivered_more_than_two_ticks_early_unjudged", 1);
+                            // `after` was read once poll() had returned and `p.lo` is the
+                            // earliest possible deadline (clock read before set_timeout): the
+                            // verdict holds whatever the thread scheduling did in between.
+                            // Correct code rounds the deadline and the poll instant to the
+                            // nearest tick, i.e. delivers at most one tick early.
+                            if after + tick < p.lo {
                                 rep.obs_max("timer_early_delivery_ticks", (p.lo.saturating_duration_since(after).as_micros() as u64) / (tick_ms * 1000));
-                                if !early_sampled {
-                                    early_sampled = true;
-                                    rep.sample(json!({"timer_early_delivery_unjudged": {"case": cc.case, "seed": cc.ctx.seed, "schedule": s, "tick_ms": tick_ms, "slots": slots,
-                                        "id": id, "deadline_us": us(p.lo), "delivered_by_us": us(after), "ops_t_us": log.clone()}}));
-                                }
+                                violation!(
+                                    "timer/delivered_before_deadline",
+                                    "a timeout was delivered more than one tick before its deadline (the hand of the wheel ran ahead of the clock)",
+                                    json!({"id": id, "earliest_deadline_us": us(p.lo), "delivered_no_later_than_us": us(after),
+                                        "ticks_early": (p.lo.saturating_duration_since(after).as_micros() as u64) / (tick_ms * 1000)})
+                                );
                             }
                         }
                         None => {
@@ -208,11 +225,17 @@ fn schedule(cc: &CaseCtx, s: u64, rep: &mut Report) {
                 match timer.next_poll_date() {
                     Some(w) if w <= bound => {}
                     Some(w) if w <= bound + revolution => {
-                        // late by less than one revolution: the hand stands ahead of the clock
-                        // (see above) and `set_timeout` never targets a tick at or behind the hand.
-                        // Bounded, seen on the unmodified tree: evidence, not a verdict.
-                        rep.obs("timer_wakeup_late_within_one_revolution_unjudged", 1);
+                        // `bound` = the later of (latest possible deadline) and (clock read after
+                        // set_timeout returned + 3 ticks: the hand legitimately stands one tick
+                        // ahead after a drain and a timeout targets hand + 1 at least), plus one
+                        // tick of rounding: decided on returned values only
                         rep.obs_max("timer_wakeup_late_us", w.saturating_duration_since(bound).as_micros() as u64);
+                        violation!(
+                            "timer/wakeup_later_than_deadline_plus_granularity",
+                            "next_poll_date() lies more than the tick granularity after the earliest pending timeout (the hand of the wheel stands ahead of the clock, so the timeout was scheduled behind its deadline): the session that owns it is reclaimed late",
+                            json!({"id": id, "latest_deadline_us": us(p.hi), "delay_us": p.delay_us,
+                                "next_poll_date_after_bound_us": w.saturating_duration_since(bound).as_micros() as u64})
+                        );
                     }
                     other => {
                         let late_ms = other.map(|w| w.saturating_duration_since(bound).as_millis().min(u64::MAX as u128) as u64);
